@@ -66,6 +66,14 @@ func runOne(ctx context.Context, sp solverSpec, mode Mode, script string, timeou
 	cmd.Run()
 	el := time.Since(t0).Seconds()
 	o := out.String()
+	// solver warnings (e.g. about rejected patterns) precede the answer
+	for strings.HasPrefix(o, "WARNING") || strings.HasPrefix(o, "(warning") {
+		i := strings.Index(o, "\n")
+		if i < 0 {
+			break
+		}
+		o = o[i+1:]
+	}
 	first := strings.TrimSpace(strings.SplitN(o, "\n", 2)[0])
 	r := SolverRes{Solver: sp.name, Mode: mode.String(), Time: el, Output: o, Script: file}
 	switch first {
@@ -279,7 +287,8 @@ func coiFacts(facts []*Term, goal *Term) ([]*Term, bool) {
 // dropping hypotheses only weakens what is assumed. A "sat" answer counts only for the full fact set in an exact encoding.
 func solve(q Query, timeout time.Duration) SolverRes {
 	// contextual simplification: for a goal H => G the query is facts /\ H /\ not G; the literals of H simplify every fact
-	if !q.Cover && q.Goal.Op == "=>" && len(q.Values) == 0 {
+	_, _, _, quant0 := featureScan(append(append([]*Term{}, q.Facts...), q.Goal))
+	if !q.Cover && q.Goal.Op == "=>" && len(q.Values) == 0 && !quant0 {
 		lits := map[*Term]bool{}
 		unitLits([]*Term{q.Goal.Args[0]}, lits)
 		if len(lits) > 0 {
